@@ -6,7 +6,11 @@ from ..front_common import hx, split_dump, child
 ALLOWED_AXIOMS = ()
 COMPONENT = "lints"
 LINTS = ["Deprecated", "BrokenDocLink", "IncorrectDocComment", "MalformedDocComment"]
-DOC = {"BrokenDocLink": "/// {@link Nope}", "IncorrectDocComment": "/// @param zz: nothing", "MalformedDocComment": "/// @foo bar"}
+DOC = {"BrokenDocLink": "/// {@link Nope}", "IncorrectDocComment": "/// @param zz: nothing", "MalformedDocComment": "/// @foo bar",
+       # other producers of MalformedDocComment: comments whose pieces are all legal but do not fit the comment grammar, and unterminated links
+       "MalformedDocComment/param-without-name": "/// @param", "MalformedDocComment/see-without-target": "/// @see", "MalformedDocComment/empty-link": "/// {@link}",
+       "MalformedDocComment/param-two-names": "/// @param a b: text", "MalformedDocComment/unterminated-link": "/// {@link X", "MalformedDocComment/link-two-names": "/// see {@link A B} there",
+       "MalformedDocComment/returns-two-names": "/// @returns a b: text"}
 
 
 def build(kind, pos, slots):
@@ -64,7 +68,8 @@ SLOTS = {"field": ["def", "member", "sibling"], "struct": ["def", "member", "sib
          "enum": ["def", "op", "sibling2"], "alias": ["member", "sibling"], "base": ["member", "op", "sibling", "sibling2"]}
 SCENARIOS = [("Deprecated", p) for p in ("field", "param", "ret", "efield", "alias", "base")] + \
             [(k, p) for k in ("BrokenDocLink", "MalformedDocComment") for p in ("struct", "field", "iface", "op", "enum", "enumerator", "alias")] + \
-            [("IncorrectDocComment", p) for p in ("struct", "field", "iface", "op", "op-single", "op-void", "enum", "alias")]
+            [("IncorrectDocComment", p) for p in ("struct", "field", "iface", "op", "op-single", "op-void", "enum", "alias")] + \
+            [(k, p) for k in DOC if "/" in k for p in ("struct", "field", "op", "enumerator")]
 
 
 def ents_of(files_sx):
@@ -115,13 +120,14 @@ def run(ck):
     cases = []   # (kind, pos, cli, slots, expect_silenced or None)
     other_file = "module N\nstruct X { y: int32 }\n"
     for kind, pos in SCENARIOS:
-        others = [l for l in LINTS if l != kind]
-        argsets = [[kind], ["All"], [others[0]], [others[1], kind], [others[0], others[1]]]
+        lint = kind.split("/")[0]
+        others = [l for l in LINTS if l != lint]
+        argsets = [[lint], ["All"], [others[0]], [others[1], lint], [others[0], others[1]]]
         placements = ["cli", "file0", "file1", "other"] + SLOTS[pos]
         cases.append((kind, pos, [], {}, False))
         for pl in placements:
             for args in argsets:
-                names = (kind in args) or ("All" in args)
+                names = (lint in args) or ("All" in args)
                 silenced = names and (pl in ("cli", "file0") or pl in ENCLOSING[pos])
                 if pl == "cli":
                     for variant in (args, [a.lower() for a in args], [a.upper() for a in args]):
@@ -132,7 +138,7 @@ def run(ck):
         for _ in range(6):
             p1, p2 = rng.sample(placements[1:], 2)
             a1, a2 = rng.choice(argsets), rng.choice(argsets)
-            sil = any(((kind in a) or ("All" in a)) and (p in ("file0",) or p in ENCLOSING[pos]) for p, a in ((p1, a1), (p2, a2)))
+            sil = any(((lint in a) or ("All" in a)) and (p in ("file0",) or p in ENCLOSING[pos]) for p, a in ((p1, a1), (p2, a2)))
             cases.append((kind, pos, [], {p1: a1, p2: a2}, sil))
 
     def attr(args, directive="allow"):
@@ -161,19 +167,20 @@ def run(ck):
         if files_sx is None or bfiles is None:
             ck.violation("placement-matrix", "crash", line, "a result", oo[:200])
             continue
-        target = [d for d in diags if d["code"] == kind]
+        lint = kind.split("/")[0]
+        target = [d for d in diags if d["code"] == lint]
         # 1. spec oracle: silenced exactly as the property says
         if len(target) != 1:
-            ck.violation("placement-matrix", "lint-not-raised-once", bytes.fromhex(line.split(" ")[2]).decode(), "one %s" % kind, repr([d["code"] for d in diags]), kind="correspondence")
+            ck.violation("placement-matrix", "lint-not-raised-once", bytes.fromhex(line.split(" ")[2]).decode(), "one %s" % lint, repr([d["code"] for d in diags]), kind="correspondence")
             continue
         want = "Allowed" if silenced else "Warning"
         if target[0]["level"] != want:
             ck.violation("placement-matrix", "silenced-wrongly" if target[0]["level"] == "Allowed" else "not-silenced", bytes.fromhex(line.split(" ")[2]).decode(),
-                         "%s is %s (cli=%s, attributes=%s)" % (kind, want, cli, slots), target[0]["level"],
-                         signature={"lint": kind, "position": pos, "placement": "+".join(sorted(slots)) or ("cli" if cli else "none"), "case": "exact" if cli == [c for c in cli if c in LINTS + ["All"]] else "other-case"})
+                         "%s is %s (cli=%s, attributes=%s)" % (lint, want, cli, slots), target[0]["level"],
+                         signature={"lint": lint, "position": pos, "placement": "+".join(sorted(slots)) or ("cli" if cli else "none"), "case": "exact" if cli == [c for c in cli if c in LINTS + ["All"]] else "other-case"})
         # 2. non-interference: nothing else changes
         strip = lambda ds: [(d["code"], d["span"], d["msg"], tuple(d["notes"])) for d in ds]
-        if strip(diags) != strip(bdiags) or any(d["level"] != b["level"] for d, b in zip(diags, bdiags) if d["code"] != kind):
+        if strip(diags) != strip(bdiags) or any(d["level"] != b["level"] for d, b in zip(diags, bdiags) if d["code"] != lint):
             ck.violation("placement-matrix", "suppression-changes-other-diagnostics", bytes.fromhex(line.split(" ")[2]).decode(), repr(strip(bdiags))[:300], repr(strip(diags))[:300])
         if oo.split(" || ")[0].replace("allow", "x::ow") != bb.split(" || ")[0]:
             ck.violation("placement-matrix", "suppression-changes-the-ast", bytes.fromhex(line.split(" ")[2]).decode(), "the same AST but for the attribute's directive", "the dumps differ",
